@@ -173,7 +173,7 @@ def main():
     bc = sub.add_parser('benign-confirm'); bc.add_argument('name'); bc.add_argument('prop'); bc.add_argument('patch'); bc.add_argument('--notes', default='')
     br = sub.add_parser('benign-run'); br.add_argument('name'); br.add_argument('--checks', default=''); br.add_argument('--tier', default='quick')
     bra = sub.add_parser('benign-runall'); bra.add_argument('--tier', default='quick'); bra.add_argument('--only-missing', action='store_true')
-    bx = sub.add_parser('benign-cross'); bx.add_argument('--tier', default='quick'); bx.add_argument('--only-missing', action='store_true'); bx.add_argument('names', nargs='*')
+    bx = sub.add_parser('benign-cross'); bx.add_argument('--tier', default='quick'); bx.add_argument('--only-missing', action='store_true'); bx.add_argument('names', nargs='*'); bx.add_argument('--only', default='')
     a = ap.parse_args()
     if a.cmd == 'confirm':
         return confirm(a)
@@ -206,7 +206,8 @@ def main():
                 continue
             meta = json.load(open(d + '/meta.json'))
             files = set(re.findall(r'^\+\+\+ b/(\S+)', open(d + '/patch.diff').read(), re.M))
-            todo = [q for q in sorted(props) if q != meta['property'] and props[q] & files
+            only = set(x for x in a.only.split(',') if x)
+            todo = [q for q in sorted(props) if q != meta['property'] and props[q] & files and (not only or q in only)
                     and not (a.only_missing and (q + ':' + a.tier) in meta.get('checks', {}))]
             if todo:
                 run_one(name, todo, a.tier, kind='benign')
